@@ -169,7 +169,7 @@ fn gen_cases(cfg: &Cfg) -> Vec<Case> {
         push(&mut v, Kind::Graph { graph });
     }
     // seeded repetition of everything with random picks (kept small: the space above is the point)
-    let n = cfg.tier.pick(600u64, 20_000);
+    let n = cfg.tier.pick(600u64, 200_000);
     for i in 0..n {
         let mut r = Rng::for_case(cfg.seed, "C09", i);
         let role = *r.pick(&ROLES);
